@@ -36,6 +36,7 @@ func genInject(seed uint64, n int, out string) {
 			o.Line("case", fmt.Sprint(c), "inject")
 			o.Line("kubeinject", "default", wire.Enc(f), fmt.Sprint(d))
 			c++
+			_ = fi
 			if thorough && !already {
 				for _, sn := range []string{"hold", "cni", "native"} {
 					o.Line("case", fmt.Sprint(c), "inject")
@@ -47,17 +48,15 @@ func genInject(seed uint64, n int, out string) {
 				if already && si > 0 {
 					continue
 				}
-				need := (s.name == "custom" && strings.Contains(f, "custom-template")) || (s.name == "spire" && strings.Contains(f, "spire"))
-				if si > 0 && !thorough && !need && (fi+si+int(seed))%3 != 0 {
-					continue
-				}
+				_ = si // every fixture under every rendering, in both tiers (a witness that exists only as a fixture is seen by every seed)
 				o.Line("case", fmt.Sprint(c), "inject")
 				o.Line("fixture", s.name, wire.Enc(f), fmt.Sprint(d))
 				c++
 			}
 			// non-default webhook configurations / admission variants on the default rendering
 			if !already {
-				mods := []string{"default+pd", "default+sel", "default+pd+sel", "default+path", "default+d", "default+path+d", "native+d", "network+path"}
+				mods := []string{"default+pd", "default+sel", "default+pd+sel", "default+path", "default+d", "default+path+d", "native+d", "network+path",
+					"default+http", "default+http+path", "default+pathenv", "default+pathcustom", "default+po", "default+alias", "default+ia", "chart-sel+http", "cni+http+d"}
 				for mi, m := range mods {
 					if !thorough && (fi+d+mi+int(seed))%len(mods) != 0 {
 						continue
@@ -92,6 +91,28 @@ func genInject(seed uint64, n int, out string) {
 		if r.Chance(1, 5) {
 			s.name += "+d"
 		}
+		if r.Chance(1, 15) {
+			s.name += "+po"
+		}
+		if r.Chance(1, 10) {
+			s.name += "+http"
+		}
+		if !strings.Contains(s.name, "+path") {
+			if r.Chance(1, 16) {
+				s.name += "+pathenv"
+			} else if r.Chance(1, 16) {
+				s.name += "+pathcustom"
+			}
+		}
+		if r.Chance(1, 12) {
+			s.name += "+alias"
+		}
+		if r.Chance(1, 12) {
+			s.name += "+ia"
+		}
+		if s.native && strings.Contains(s.name, "+http") {
+			s.name = strings.ReplaceAll(s.name, "+http", "") // NewWebhook wants node clients for native-sidecar detection
+		}
 		// namespace of the admission request; the pod's own namespace is set separately (genPod)
 		ns := wire.Pick(r, []string{"default", "default", "", "test-ns", "istio-system"})
 		if r.Chance(1, 8) {
@@ -100,11 +121,26 @@ func genInject(seed uint64, n int, out string) {
 		o.Line("case", fmt.Sprint(c), "inject")
 		o.Line("pod", s.name, wire.Enc(ns), wire.Enc(string(b)))
 		c++
-		if i%5 == 0 {
-			// the kube-inject call site on the same pod, bare or as the template of a Deployment in namespace ns
+		if i%4 == 0 {
+			// the kube-inject call site on the same pod, in a workload object of every kind, in namespace ns; through IntoObject,
+			// IntoResourceFile (@file) or IntoObject with an Injector that asks the webhook (@injector)
 			base := strings.Split(s.name, "+")[0]
+			wrap := wrapKinds[(i/4)%len(wrapKinds)]
+			switch {
+			case r.Chance(1, 4):
+				wrap += "@file"
+			case r.Chance(1, 5) && wrap != "cronjob":
+				wrap += "@injector"
+			}
 			o.Line("case", fmt.Sprint(c), "inject")
-			o.Line("kubeinject-pod", base, wire.Pick(r, []string{"pod", "deployment", "deployment"}), wire.Enc(ns), wire.Enc(string(b)))
+			o.Line("kubeinject-pod", base, wrap, wire.Enc(ns), wire.Enc(string(b)))
+			c++
+		}
+		if i%10 == 3 {
+			// decision-only: the really injected pod, changed so that the documented decision is "never", admitted again
+			o.Line("case", fmt.Sprint(c), "inject")
+			o.Line("redecide", s.name, wire.Enc(ns), wire.Enc(string(b)),
+				wire.Pick(r, []string{"label-false", "annotation-false", "namespace-ignored", "request-namespace-ignored", "host-network"}))
 			c++
 		}
 	}
@@ -184,6 +220,12 @@ func genContainer(r *wire.Rng, name string, volumes []corev1.Volume) corev1.Cont
 	}
 	if r.Chance(1, 6) {
 		c.Lifecycle = &corev1.Lifecycle{PreStop: &corev1.LifecycleHandler{HTTPGet: &corev1.HTTPGetAction{Path: "/stop", Port: intstr.FromInt32(8080)}}}
+		if r.Chance(1, 2) {
+			c.Lifecycle.PostStart = &corev1.LifecycleHandler{HTTPGet: &corev1.HTTPGetAction{Path: "/started", Port: intstr.FromInt32(8080)}}
+		}
+		if r.Chance(1, 4) {
+			c.Lifecycle.PostStart = &corev1.LifecycleHandler{TCPSocket: &corev1.TCPSocketAction{Port: intstr.FromInt32(8080)}}
+		}
 	}
 	if r.Chance(1, 3) {
 		c.Env = []corev1.EnvVar{{Name: "FOO", Value: "bar"}}
@@ -230,7 +272,7 @@ func genPod(r *wire.Rng) *corev1.Pod {
 		pod.Labels["version"] = "v1"
 	}
 	if r.Chance(1, 6) {
-		pod.Labels["sidecar.istio.io/inject"] = wire.Pick(r, []string{"true", "true", "false", "maybe"})
+		pod.Labels["sidecar.istio.io/inject"] = wire.Pick(r, []string{"true", "true", "false", "maybe", ""})
 	}
 	if r.Chance(1, 8) {
 		pod.Labels["service.istio.io/canonical-name"] = "canon"
@@ -320,6 +362,18 @@ func genPod(r *wire.Rng) *corev1.Pod {
 		}
 		pod.Spec.InitContainers = append(pod.Spec.InitContainers, c)
 	}
+	if r.Chance(1, 25) && !usedC["istio-proxy-marker"] {
+		// the user's sidecar customisation written as a native sidecar (init container with restartPolicy Always)
+		hasProxy := false
+		for _, c := range pod.Spec.Containers {
+			hasProxy = hasProxy || c.Name == "istio-proxy"
+		}
+		if !hasProxy {
+			always := corev1.ContainerRestartPolicyAlways
+			pod.Spec.InitContainers = append(pod.Spec.InitContainers, corev1.Container{Name: "istio-proxy", Image: "auto", RestartPolicy: &always,
+				Resources: corev1.ResourceRequirements{Requests: corev1.ResourceList{corev1.ResourceCPU: resource.MustParse("222m")}}})
+		}
+	}
 	if r.Chance(1, 20) {
 		pod.Spec.InitContainers = append(pod.Spec.InitContainers, corev1.Container{Name: "istio-init", Image: "auto",
 			SecurityContext: &corev1.SecurityContext{RunAsUser: i64(0)}})
@@ -327,10 +381,14 @@ func genPod(r *wire.Rng) *corev1.Pod {
 	// annotations that steer the injector
 	ann := pod.Annotations
 	if r.Chance(1, 8) {
-		ann["sidecar.istio.io/inject"] = wire.Pick(r, []string{"true", "false"})
+		ann["sidecar.istio.io/inject"] = wire.Pick(r, []string{"true", "false", "true", "false", "", "maybe"})
 	}
 	if r.Chance(1, 5) {
-		ann["inject.istio.io/templates"] = wire.Pick(r, []string{"sidecar", "gateway", "grpc-agent", "grpc-simple", "nonexistent", "custom", "spire"})
+		ann["inject.istio.io/templates"] = wire.Pick(r, []string{"sidecar", "gateway", "grpc-agent", "grpc-simple", "nonexistent", "custom", "spire",
+			"sidecar,custom", "sidecar, custom", "myalias"})
+	}
+	if r.Chance(1, 12) {
+		ann["prometheus.istio.io/scrape-targets"] = wire.Pick(r, []string{":9090/metrics", ":9090/metrics,:9091/other", "8080"})
 	}
 	if r.Chance(1, 6) {
 		ann["sidecar.istio.io/rewriteAppHTTPProbers"] = wire.Pick(r, []string{"true", "false"})
